@@ -197,6 +197,9 @@ func (s *seekableDecryptingReader) loadSegment(j int64) error {
 		nonce[tinkNoncePrefixSize+4] = 1
 	}
 
+	// Open decrypts into the buffer of the cached segment and may clobber it
+	// even when authentication fails: the cache is invalid from here on.
+	s.segIndex = -1
 	plaintext, err := s.cipher.Open(s.plaintext[:0], nonce, segment, nil)
 	if err != nil {
 		return fmt.Errorf("segment %d decryption failed: %w", j, err)
